@@ -391,7 +391,7 @@ def odd_callbacks():
     sx.reach("odd-callbacks")
 
 
-def concurrent_send(k, tag="C10/concurrent-send"):
+def concurrent_send(k, tag="C10/concurrent-send", preempt=0):
     """Network.send_message is documented as safe to call from several threads: k threads send one frame each
     (every schedule at lock granularity); the bus sees every frame exactly once, with its own id, data and flag."""
     netmod = sx.mod("canopen.network")
@@ -404,7 +404,7 @@ def concurrent_send(k, tag="C10/concurrent-send"):
         for c, _, _ in frames:
             sx.assume(cid != c)
         frames.append((cid, sx.fresh_bytes("data%d" % i, 8), bool(i % 2) and False))
-    sched = sx.scheduler()
+    sched = sx.scheduler(preempt=preempt)
     for i in range(1, k):
         sched.spawn(lambda i=i: net.send_message(frames[i][0], frames[i][1]), "sender%d" % i)
     net.send_message(frames[0][0], frames[0][1])
